@@ -82,6 +82,11 @@ def parseCmd : P (Cmd sig) := do
   | "RENAME" => k2 .rename
   | "RENAMENX" => k2 .renamenx
   | "RPOPLPUSH" => k2 .rpoplpush
+  | "LMOVE" => do
+    let a ← strKey; let b ← strKey; let f ← tok; let t ← tok
+    pure (.two a b (.lmove (f == "L") (t == "L")))
+  | "SORTSTORE" => k2 .sortStore
+  | "EVALSIE" => do let a ← strKey; let b ← strKey; let v ← bytesTok; pure (.two a b (.evalSetIfExists v))
   | "MGET" => do let n ← nat; let ks ← repeatP n strKey; pure (.mget ks)
   | "MSET" => do let n ← nat; let l ← kvs n; pure (.mset l)
   | "MSETNX" => do let n ← nat; let l ← kvs n; pure (.msetnx l)
